@@ -758,15 +758,25 @@ class FTPFS(FS):
             try:
                 info = self.getinfo(_path)
             except errors.ResourceNotFound:
-                if _mode.reading:
+                if not _mode.create:
                     raise errors.ResourceNotFound(path)
-                if _mode.writing and not self.isdir(dirname(_path)):
+                if not self.isdir(dirname(_path)):
                     raise errors.ResourceNotFound(path)
+                exists = False
             else:
                 if info.is_dir:
                     raise errors.FileExpected(path)
                 if _mode.exclusive:
                     raise errors.FileExists(path)
+                exists = True
+            if _mode.truncate or not exists:
+                # Like a file on disk, the file exists (and is empty
+                # in 'w' / 'x' modes) as soon as it has been opened,
+                # whether or not anything is written to it.
+                with ftp_errors(self, path):
+                    self.ftp.storbinary(
+                        str("STOR ") + _encode(_path, self.ftp.encoding), io.BytesIO()
+                    )
             ftp_file = FTPFile(self, _path, _mode.to_platform_bin())
         return ftp_file  # type: ignore
 
